@@ -93,3 +93,98 @@ REG.contract('BatchProcessing._provision_resources', world=BPW,
              raises={'RuntimeError': dict(when=None), 'KeyError': dict(when=None), 'IndexError': dict(when=None)},
              modifies=['cluster._resources.available', 'cluster._resources.idle', 'cluster.num_provisioned_obs'],
              props=['C09'])
+
+
+# ================================================================================================ BatchProcessing.run
+def finished(c, sv, cluster, p):
+    k = CV(cluster)
+    return z3.And(z3.Select(k.fin.keys, p), z3.Select(k.fin.vals, p))
+
+
+def all_preds_finished(c, sv, cluster, graph, t):
+    p = z3.Int('pq')
+    return z3.ForAll([p], z3.Implies(EDGE(graph, p, t), finished(c, sv, cluster, p)))
+
+
+def _alloc_facts(c, sv0, sv1, A, E, T, T0, graph):
+    """what holds of every allocation added in this call (A: allocations now, E: the schedule passed in)"""
+    st0 = lambda t: z3.Select(sv0.heap('Task', 'task_status'), t)
+    new = lambda t: z3.And(z3.Select(A.keys, t), z3.Not(z3.Select(E.keys, t)))
+    out = [('C03-every-new-allocation-has-all-predecessors-finished', Q([('t', I)], lambda t: z3.Implies(
+        new(t), all_preds_finished(c, sv0, sv0.cluster, graph, t)))),
+           ('C04-only-unscheduled-tasks-are-proposed', Q([('t', I)], lambda t: z3.Implies(new(t), st0(t) == TS('UNSCHEDULED')))),
+           ('existing-proposals-kept', Q([('t', I)], lambda t: z3.Implies(z3.Select(E.keys, t), z3.And(
+               z3.Select(A.keys, t), z3.Select(A.vals, t) == z3.Select(E.vals, t))))),
+           ('proposals-name-objects', Q([('t', I)], lambda t: z3.Implies(new(t), z3.And(t > 0, z3.Select(A.vals, t) > 0))))]
+    if T0 is not None:
+        out += [('C09-C01-new-allocations-use-machines-of-the-free-list-read-at-the-start', Q([('t', I)], lambda t: z3.Implies(
+            new(t), z3.Select(T0.cnt, z3.Select(A.vals, t)) > 0))),
+                ('C01-a-machine-is-handed-out-once', Q([('t', I), ('u', I)], lambda t, u: z3.Implies(
+                    z3.And(new(t), new(u), t != u), z3.Select(A.vals, t) != z3.Select(A.vals, u))))]
+    if T is not None:
+        out += [('handed-out-machines-left-the-free-list', Q([('t', I)], lambda t: z3.Implies(new(t), z3.Select(T.cnt, z3.Select(A.vals, t)) == 0))),
+                ('free-list-only-shrinks', Q([('m', I)], lambda m: z3.And(z3.Select(T.cnt, m) >= 0, z3.Select(T.cnt, m) <= z3.Select(T0.cnt, m),
+                                                                          z3.Select(T0.cnt, m) <= 1)))]
+    return out
+
+
+def _bp_loop1_inv(c):
+    n, o = c.n, c.x['pre']
+    A, E = n['allocations'], n['existing_schedule']
+    T, T0 = n['temporary_resources'], o['temporary_resources']
+    g = n.workflow_plan.graph.t
+    out = _alloc_facts(c, o, n, A, E, T, T0, g)
+    out.append(('pool-tasks-are-objects', Q([('t', I)], lambda t: z3.Implies(n.task_pool.count(t) > 0, t > 0))))
+    return out
+
+
+def _count_inv(c):
+    n = c.n
+    vis = c.x['visited']
+    cnt = n['count'].t
+    return [('count-bounded', z3.And(cnt >= 0, cnt <= z3.ToReal(vis.n))),
+            ('C03-count-equals-visited-only-if-all-visited-finished', z3.Implies(cnt == z3.ToReal(vis.n), z3.ForAll(
+                [z3.Int('pv')], z3.Implies(z3.Select(vis.cnt, z3.Int('pv')) > 0, finished(c, n, n.cluster, z3.Int('pv'))))))]
+
+
+def _bp_ens(c):
+    o, n = c.o, c.n
+    k0, k1 = CV(o.cluster), CV(n.cluster)
+    A, E = c.result[0], o.existing_schedule
+    pid = o.workflow_plan.id.t
+    g = o.workflow_plan.graph.t
+    T0cnt = z3.If(k1.key(pid), z3.Select(k1.idle.vcnt, pid), z3.K(I, z3.IntVal(0)))
+    st0 = lambda t: z3.Select(o.heap('Task', 'task_status'), t)
+    new = lambda t: z3.And(z3.Select(A.keys, t), z3.Not(z3.Select(E.keys, t)))
+    plan_empty = z3.Select(o.heap('WorkflowPlan', 'tasks.n'), o.workflow_plan.t) == 0
+    return [('C03-every-new-allocation-has-all-predecessors-finished', Q([('t', I)], lambda t: z3.Implies(
+        new(t), all_preds_finished(c, o, o.cluster, g, t)))),
+            ('C04-only-unscheduled-tasks-are-proposed', Q([('t', I)], lambda t: z3.Implies(new(t), st0(t) == TS('UNSCHEDULED')))),
+            ('C01-a-machine-is-handed-out-once', Q([('t', I), ('u', I)], lambda t, u: z3.Implies(
+                z3.And(new(t), new(u), t != u), z3.Select(A.vals, t) != z3.Select(A.vals, u)))),
+            ('C09-busy-pools-untouched', z3.And(same_list(k1.ing, k0.ing), same_list(k1.occ, k0.occ))),
+            ('proposals-name-objects', Q([('t', I)], lambda t: z3.Implies(new(t), z3.And(t > 0, z3.Select(A.vals, t) > 0))))]
+
+
+BP_MOD = ['cluster._resources.available', 'cluster._resources.idle', 'cluster.num_provisioned_obs', 'heap:WorkflowPlan.status',
+          'arg:task_pool']
+
+REG.contract('BatchProcessing.run', world=BPW,
+             params={'cluster': 'root:cluster', 'clock': 'num', 'workflow_plan': 'WorkflowPlan',
+                     'existing_schedule': 'dict:Task->ref:Machine', 'task_pool': 'set:Task'},
+             requires=lambda c: [('partitions-positive', c.o.self.max_resources_split.t > 0),
+                                 ('assume:split-is-whole-and-min-le-max', z3.Implies(c.o.self.resource_split.nk > 0, z3.And(
+                                     z3.IsInt(split_of(c, c.o)[1]), split_of(c, c.o)[0] <= split_of(c, c.o)[1]))),
+                                 ('pool-tasks-are-objects', Q([('t', I)], lambda t: z3.Implies(c.o.task_pool.count(t) > 0, t > 0))),
+                                 ('assume:graph-nodes-are-task-objects', Q([('a', I), ('b', I)], lambda a, b: z3.Implies(
+                                     EDGE(c.o.workflow_plan.graph.t, a, b), z3.And(a > 0, b > 0))))],
+             ensures=_bp_ens, result='tuple:dict:Task->ref:Machine,enum:WorkflowStatus,set:Task',
+             raises={'RuntimeError': dict(when=None, unchanged=False), 'KeyError': dict(when=None, unchanged=False),
+                     'IndexError': dict(when=None, unchanged=False)},
+             modifies=BP_MOD, props=['C03', 'C09', 'C01', 'C04'])
+REG.loop('BatchProcessing.run', 0, inv=lambda c: [('pool-tasks-are-objects', Q([('t', I)], lambda t: z3.Implies(c.n.task_pool.count(t) > 0, t > 0)))],
+         modifies_locals=['task'], modifies=['task_pool'], props=['C03'])
+REG.loop('BatchProcessing.run', 1, inv=_bp_loop1_inv,
+         modifies_locals=['task', 'm', 'tduration', 'pred', 'count', 'p'],
+         modifies=['allocations', 'temporary_resources', 'removed', 'added'], props=['C03', 'C09', 'C01'])
+REG.loop('BatchProcessing.run', 2, inv=_count_inv, modifies_locals=['p', 'count'], props=['C03'])
